@@ -20,7 +20,7 @@ func init() {
 		Level:        "exploration",
 		Builds:       []string{"race"},
 		Shards:       8,
-		Rule:         "the scenario suites of C03/C04/C09/C10/C11 are executed in a -race build: every query scenario (select, telemetry, insert, streamed insert with progress/profile-event packets arriving while blocks are sent, compressed variants, external data) with OpenTelemetryInstrumentation on and off, fault-free and with cancel / foreign Close / exception / callback failure injected at every gate of the pilot trace, repeated (quick x3, thorough x40) under GOMAXPROCS in {2, 4, 16}; shared pools with 1..12 goroutines and a 1-2 ms health checker. The harness obeys the API contract (no concurrent Do/Ping on one client, input columns touched only inside OnInput). Oracle: the Go race detector; its log files are parsed in the parent, reports are deduplicated by stack pair, and a report counts as a violation iff at least one stack has a frame in github.com/ClickHouse/ch-go (a race wholly inside the harness fails the run as a broken monitor). Non-trivial = sender and receiver both executed hook points in the run; distinct = interleaving signatures (hash of the per-execution hook order)",
+		Rule:         "the scenario suites of C03/C04/C09/C10/C11 are executed in a -race build: every query scenario (select, telemetry, insert, streamed insert with progress/profile-event packets arriving while blocks are sent, compressed variants, external data) with OpenTelemetryInstrumentation on and off, fault-free and with cancel / foreign Close / exception / callback failure injected at every gate of the pilot trace, repeated (quick x3, thorough x40) under GOMAXPROCS in {2, 4, 16}; shared pools with 1..12 goroutines and a 1-2 ms health checker; pools and directly dialled clients that share one caller-owned Options value (its *net.Dialer and Settings slice) over loopback TCP, 2..11 goroutines starting together. The harness obeys the API contract (no concurrent Do/Ping on one client, input columns touched only inside OnInput). Oracle: the Go race detector; its log files are parsed in the parent, reports are deduplicated by stack pair, and a report counts as a violation iff at least one stack has a frame in github.com/ClickHouse/ch-go (a race wholly inside the harness fails the run as a broken monitor). Non-trivial = sender and receiver both executed hook points in the run; distinct = interleaving signatures (hash of the per-execution hook order)",
 		Assumptions:  []string{"a clean run means no race was reported on the interleavings observed, nothing more", "Go race detector (ThreadSanitizer runtime) as shipped with go1.23"},
 		MinDistinct:  20,
 		Post:         c12Post,
@@ -109,6 +109,14 @@ func c12(r *core.Run) {
 			continue
 		}
 		c11History(r, ci)
+	}
+	// shared pools dialled over loopback TCP by the caller's own *net.Dialer
+	for k := 0; k < r.Pick(24, 400); k++ {
+		ci++
+		if !r.Take(ci) {
+			continue
+		}
+		c12SharedOptions(r, ci)
 	}
 }
 
